@@ -234,6 +234,9 @@ def expand(chunk):
             yield {"d": d, "kind": "entry_free", "stmt": name, "comb": []}
         for name in JOIN_SHORTHANDS:
             yield {"d": d, "kind": "join_shorthand", "stmt": name, "comb": []}
+        for fam in ACC_FAMILIES:
+            for n in (3, 4, 5):
+                yield {"d": d, "kind": "accumulate", "stmt": fam, "n": n, "comb": []}
         return
     if kind == "ddl":
         for comb in multisets(DDL_ALPHA, chunk["size"]):
@@ -613,6 +616,154 @@ def run_join_shorthand(case, res):
                 res.violate("C13|join_shorthand|%s|is_joined" % name, "is_joined() does not report the joined item (and only it)", dialect=d, item=item_kind, got=joined)
 
 
+ACC_FAMILIES = ("where", "having", "prewhere", "select", "groupby", "orderby", "join", "with", "update_where", "delete_where", "set", "from")
+
+
+def sqlite_parse_error(sql):
+    """True when SQLite's parser (not its name resolution) rejects the text"""
+    try:
+        sqlite3.connect(":memory:").execute("EXPLAIN " + sql)
+    except sqlite3.Error as e:
+        m = str(e)
+        return not (m.startswith("no such table") or m.startswith("no such column") or "no such function" in m)
+    return False
+
+
+def run_accumulate(case, res):
+    """n = 3..5 calls of ONE clause, each carrying its own marker: the markers appear in the statement once each, in call order,
+    inside that clause; the statement is lexable and balanced and, for the SQLite dialect, accepted by the engine's parser.
+    Then the same through every sub-statement position that has its own rendering path (select-list item, FROM source, IN operand,
+    CTE body): the embedded text is bracketed, i.e. no clause keyword of the inner statement appears at the outer bracket level."""
+    from pypika_tortoise import Table, Field, functions as FN
+
+    d, fam, n = case["d"], case["stmt"], case["n"]
+    Q = fp.QCLS[d]
+    lexd = "sqlite" if d == "generic" else d
+    res.nontrivial = 1
+    res.states.append(h64(json.dumps([d, fam, n])))
+    t = Table("t")
+    marks = ["mk%da" % i for i in range(n)]
+    cols = [Field(m, table=t) for m in marks]
+    if fam == "where":
+        q = Q.from_(t).select(t.a)
+        for c in cols:
+            q = q.where(c > 0)
+    elif fam == "prewhere":
+        q = Q.from_(t).select(t.a)
+        for c in cols:
+            q = q.prewhere(c > 0)
+    elif fam == "having":
+        q = Q.from_(t).select(FN.Count(t.id)).groupby(t.a)
+        for c in cols:
+            q = q.having(FN.Sum(c) > 0)
+    elif fam == "select":
+        q = Q.from_(t)
+        for c in cols:
+            q = q.select(c)
+    elif fam == "groupby":
+        q = Q.from_(t).select(FN.Count(t.id))
+        for c in cols:
+            q = q.groupby(c)
+    elif fam == "orderby":
+        q = Q.from_(t).select(t.a)
+        for c in cols:
+            q = q.orderby(c)
+    elif fam == "join":
+        q = Q.from_(t).select(t.a)
+        for m in marks:
+            j = Table(m)
+            q = q.join(j).on(t.id == j.id)
+    elif fam == "with":
+        q = Q.from_(t).select(t.a)
+        for m in marks:
+            q = q.with_(Q.from_(Table("src")).select("x"), m)
+    elif fam == "from":
+        q = Q.from_(Table(marks[0]))
+        for m in marks[1:]:
+            q = q.from_(Table(m))
+        q = q.select("x")
+    elif fam == "update_where":
+        q = Q.update(t).set(t.a, 1)
+        for c in cols:
+            q = q.where(c > 0)
+    elif fam == "delete_where":
+        q = Q.from_(t).delete()
+        for c in cols:
+            q = q.where(c > 0)
+    else:  # set
+        q = Q.update(t)
+        for c in cols:
+            q = q.set(c, 1)
+    outer = Table("o")
+    forms = {"top": q}
+    if fam in ("where", "having", "select", "groupby", "orderby", "join", "from"):
+        one = q if fam != "select" else Q.from_(t).select(cols[0]).where(cols[1] > 0).where(cols[2] > 0) if n == 3 else None
+        if fam != "select":
+            forms["from_source"] = Q.from_(q.as_("sq")).select("x")
+            forms["in_operand"] = Q.from_(outer).select(outer.z).where(outer.k.isin(q)) if fam not in ("from",) else None
+            forms["cte_body"] = Q.from_(outer).select(outer.z).with_(q, "cte1")
+        if one is not None and fam in ("where", "select"):
+            forms["select_item"] = Q.from_(outer).select(outer.z, one.limit(1).as_("it") if fam == "select" else Q.from_(t).select(t.a).where(cols[0] > 0).where(cols[1] > 0).where(cols[2] > 0).limit(1).as_("it"))
+    al = "pqr" if d == "oracle" else 'p"q`r'
+    if fam == "select":
+        # aliases that contain the quote characters, in the select list and on a FROM source, with and without the AS keyword
+        forms["aliased"] = Q.from_(Q.from_(t).select(cols[0].as_(al), cols[1], cols[2]).as_(al)).select("x")
+    for form, obj in forms.items():
+        if obj is None:
+            continue
+        for as_kw in (False, True):
+            try:
+                sql = obj.get_sql(fp.CTX[d].copy(as_keyword=True)) if as_kw else prog.render(obj, d)[0]
+            except Exception as e:
+                res.violate("C13|accumulate|%s|raises|%s" % (fam, type(e).__name__), "a repeated clause call raised", dialect=d, form=form, n=n, error=str(e)[:200])
+                continue
+            res.transitions += 1
+            res.outcomes.append(h64(sql))
+            try:
+                toks = lex(sql, lexd)
+            except LexError as e:
+                res.violate("C13|accumulate|%s|unlexable" % form, "the statement cannot be lexed", dialect=d, family=fam, n=n, as_keyword=as_kw, sql=sql, error=str(e)[:120])
+                continue
+            depth, bad, pos, top_words = 0, False, {}, []
+            for i, tk in enumerate(toks):
+                if tk.kind == "OP" and tk.text == "(":
+                    depth += 1
+                elif tk.kind == "OP" and tk.text == ")":
+                    depth -= 1
+                    bad = bad or depth < 0
+                elif tk.kind == "ID" or (tk.kind == "WORD" and tk.text in marks):
+                    if (tk.value if tk.kind == "ID" else tk.text) in marks:
+                        pos.setdefault(tk.value if tk.kind == "ID" else tk.text, []).append(i)
+                if depth == 0 and tk.kind == "WORD" and tk.value in ("SELECT", "FROM", "WHERE", "HAVING"):
+                    top_words.append(tk.value)
+            if bad or depth:
+                res.violate("C13|accumulate|%s|unbalanced" % form, "brackets do not balance", dialect=d, family=fam, n=n, sql=sql)
+                continue
+            if form == "aliased":
+                n_al = sum(1 for tk in toks if tk.kind == "ID" and tk.value == al)
+                n_as = sum(1 for i, tk in enumerate(toks[1:], 1) if tk.kind == "ID" and tk.value == al and toks[i - 1].kind == "WORD" and toks[i - 1].value == "AS")
+                if n_al != 3 or n_as != (2 if as_kw else 0):
+                    res.violate("C13|accumulate|aliased|alias-tokens", "an alias is not written as one identifier token%s" % (" after AS" if as_kw else ""),
+                                dialect=d, as_keyword=as_kw, alias=al, found=n_al, after_as=n_as, sql=sql)
+            expect_marks = marks if form not in ("select_item", "aliased") else marks[:3]
+            order = [pos.get(m, [None])[0] for m in expect_marks]
+            counts = [len(pos.get(m, [])) for m in expect_marks]
+            per = 2 if fam == "join" else 1  # a joined table is named in JOIN and in its ON criterion
+            want = [per] * len(counts)
+            if fam == "from":
+                want[0] = 2  # the column selected by name belongs to the first FROM table and is qualified with it
+            if counts != want:
+                res.violate("C13|accumulate|%s|marker-count" % fam, "a repeated call's item is missing or duplicated in the statement", dialect=d, form=form, n=n, counts=counts, sql=sql)
+            elif order != sorted(order):
+                res.violate("C13|accumulate|%s|call-order" % fam, "repeated calls of one clause do not accumulate in call order", dialect=d, form=form, n=n, sql=sql)
+            for w in ("SELECT", "FROM", "WHERE", "HAVING"):
+                if top_words.count(w) > 1 and not (w == "SELECT" and form == "cte_body"):
+                    res.violate("C13|accumulate|%s|clause-twice" % form, "clause keyword %s appears twice at the statement's own bracket level" % w, dialect=d, family=fam, n=n, as_keyword=as_kw, sql=sql)
+                    break
+            if d == "sqlite" and fam not in ("prewhere",) and sqlite_parse_error(sql):
+                res.violate("C13|accumulate|%s|sqlite-rejects" % form, "SQLite's parser rejects the statement", family=fam, n=n, as_keyword=as_kw, sql=sql)
+
+
 def run_self_join_star(case, res):
     """one table under two aliases: the star of one alias subsumes the columns of that alias only"""
     from pypika_tortoise import Table
@@ -648,6 +799,9 @@ def run_case(case):
     res = Result()
     if case["kind"] == "entry_free":
         run_entry_free(case, res)
+        return res
+    if case["kind"] == "accumulate":
+        run_accumulate(case, res)
         return res
     if case["kind"] == "join_shorthand":
         run_join_shorthand(case, res)
